@@ -50,7 +50,8 @@ Fixpoint e_loop (fuel : nat) (f : nat -> A -> A) (c : list A) (b e : eiter) (vis
 Definition enumerate_for (f : nat -> A -> A) (c : list A) : outcome (list (nat * A) * list A) :=
   e_loop (S (length c)) f c e_begin (e_end c) [].
 
-(* for (auto x : enumerate(std::move(c))) / a temporary / an initializer list: detail::enumerate<T> owns a copy
+(* for (auto x : enumerate(std::move(c))) / a temporary — const-qualified or not: a function returning `const C`,
+   static_cast<const C&&>, std::move of a const object — / an initializer list: detail::enumerate<T> owns a copy
    (container_), hands out its const iterators, and lives until the loop is over; only the visits are left *)
 Definition enumerate_rvalue (c : list A) : outcome (list (nat * A)) :=
   let container_ := c in
